@@ -4,7 +4,9 @@
 (* behaviour of the abstract queue Fifo under the observation rules of FifoObs.                *)
 (* A batch of traces is read from the JSON file named by the environment variable TRACE_FILE;  *)
 (* each trace is validated in its own behaviour (tid chosen in Init).  The verdict is total:   *)
-(* every trace ends by printing <<"ACC", tid, steps>> or <<"REJ", tid, step, clause>>.         *)
+(* every trace ends by printing <<"ACC", tid, steps, live>> or <<"REJ", tid, step, clause>>     *)
+(* (live = number of positions at which the bounded-liveness clause of the asynchronous        *)
+(* variants was actually exercised: an entry held, k edges of each clock after the last write). *)
 (*                                                                                             *)
 (* trace = [variant |-> "sync"|"buffered"|"async"|"asyncbuf", depth |-> n, k |-> liveness K,   *)
 (*          steps |-> << <<wedge, redge, w_en, w_data, r_en,                                   *)
@@ -16,8 +18,8 @@ EXTENDS FifoObs, Json, IOUtils, TLC, TLCExt
 Batch == JsonDeserialize(IOEnv.TRACE_FILE)
 Traces == Batch.traces
 
-VARIABLES tid, i, q, wait, sinceW, sinceR, verdict
-vars == <<tid, i, q, wait, sinceW, sinceR, verdict>>
+VARIABLES tid, i, q, wait, sinceW, sinceR, live, verdict
+vars == <<tid, i, q, wait, sinceW, sinceR, live, verdict>>
 
 T == Traces[tid]
 IsSync == T.variant \in {"sync", "buffered"}
@@ -37,7 +39,7 @@ Clause(s, o, w) ==
              THEN "entry_not_readable_K_edges_after_last_write" ELSE ""
 
 Init == /\ tid \in 1..Len(Traces) /\ i = 1 /\ q = <<>> /\ wait = 0
-        /\ sinceW = 0 /\ sinceR = 0 /\ verdict = ""
+        /\ sinceW = 0 /\ sinceR = 0 /\ live = 0 /\ verdict = ""
 
 Step ==
     /\ verdict = "" /\ i <= Len(T.steps)
@@ -50,18 +52,20 @@ Step ==
            q1 == IF dr /\ Len(q) > 0 THEN Tail(q) ELSE q
        IN IF c # ""
           THEN /\ verdict' = c /\ PrintT(<<"REJ", tid, i, c>>)
-               /\ UNCHANGED <<i, q, wait, sinceW, sinceR, tid>>
+               /\ UNCHANGED <<i, q, wait, sinceW, sinceR, live, tid>>
           ELSE /\ q' = IF dw THEN Append(q1, s[4]) ELSE q1
                /\ wait' = w
                /\ sinceW' = IF dw THEN 0 ELSE IF s[1] = 1 /\ sinceW < 1000 THEN sinceW + 1 ELSE sinceW
                /\ sinceR' = IF dw THEN 0 ELSE IF s[2] = 1 /\ sinceR < 1000 THEN sinceR + 1 ELSE sinceR
+               /\ live' = IF ~IsSync /\ T.k > 0 /\ Len(q) > 0 /\ sinceW >= T.k /\ sinceR >= T.k
+                          THEN live + 1 ELSE live
                /\ i' = i + 1
                /\ UNCHANGED <<tid, verdict>>
 
 Finish ==
     /\ verdict = "" /\ i = Len(T.steps) + 1
-    /\ verdict' = "ACC" /\ PrintT(<<"ACC", tid, Len(T.steps)>>)
-    /\ UNCHANGED <<tid, i, q, wait, sinceW, sinceR>>
+    /\ verdict' = "ACC" /\ PrintT(<<"ACC", tid, Len(T.steps), live>>)
+    /\ UNCHANGED <<tid, i, q, wait, sinceW, sinceR, live>>
 
 Next == Step \/ Finish
 Spec == Init /\ [][Next]_vars
